@@ -105,9 +105,8 @@ where
 
 def metaChars : List Char := "\\^$|?*+()[]{}".toList
 
-/-- the raw text read as a regular expression: only `.` is treated as a metacharacter
-(WF excludes the others) -/
-def rawPat (raw : List Char) : List PC := raw.map (fun c => if c == '.' then PC.dot else PC.lit c)
+/-- the raw text as a pattern: every character stands for itself (`regexp.QuoteMeta`, since the fix commit) -/
+def rawPat (raw : List Char) : List PC := raw.map PC.lit
 
 /-- with `(?s)`, `.` also matches a newline -/
 def patPrefixS : List PC → List Char → Bool
@@ -121,7 +120,7 @@ def findBlank : List Char → Option Nat
   | _ :: cs => (findBlank cs).map (· + 1)
   | [] => none
 
-/-- matcher of `(?s)RAW\n.*?\n\n` -/
+/-- matcher of `(?s)QUOTED(RAW)\n.*?\n\n` -/
 def paraMatcher (raw : List Char) : Matcher Char := fun t =>
   let p := rawPat raw ++ [PC.lit '\n']
   if patPrefixS p t && !raw.isEmpty then
@@ -139,7 +138,6 @@ def applyDir (tg : Target) (t : List Char) (d : Dir) : Option (List Char) :=
   | some only =>
     if keep only tg d.args then some (replaceFirst d.raw (cleanKeyword d) t)
     else if isInline d then some (replaceAllLit d.raw [] t)
-    else if d.raw.any (fun c => metaChars.contains c) then none  -- raw is used as a regex: not modelled
     else some (replaceAllWith (paraMatcher d.raw) [] t)
 
 /-- `directive.Run` restricted to `only`/`exclude` -/
@@ -208,8 +206,7 @@ def wfDir (l : List Char) : Bool :=
   | none => true
   | some d =>
     (d.name == "only".toList || d.name == "exclude".toList) && d.raw == l && !d.args.isEmpty &&
-    !hasKw d.before &&
-    (if d.before.all isSpace then l.all (fun c => !metaChars.contains c) else true)
+    !hasKw d.before
 
 def wfItems : List Item → Bool
   | [] => true
